@@ -1,12 +1,13 @@
 //! C11 Conversions are pointwise, order-preserving and layout-independent (metamorphic relations).
 
-use super::hist::supported_cfg;
+use crate::gen::{pick_from, sup_primaries, sup_transfer, SUBSAMPLINGS};
+use crate::oracle::STD_MC;
 use crate::api::{cfg_from_json, cfg_json};
 use crate::conv::*;
 use crate::engine::*;
 use proptest::prelude::*;
 use serde_json::{json, Value};
-use yuvxyb::{Frame, Pixel, Plane, Yuv, YuvConfig};
+use yuvxyb::{ColorPrimaries as CP, Frame, Hsl, LinearRgb, MatrixCoefficients as MC, Pixel, Rgb, Xyb, Yuv, YuvConfig};
 
 #[derive(Debug, Clone)]
 pub struct Case {
@@ -45,19 +46,50 @@ fn pad3() -> impl Strategy<Value = [(usize, usize); 3]> {
     [(p(), p()), (p(), p()), (p(), p())]
 }
 
+/// every matrix for which the conversions succeed: the 7 standard ones and the 5 that are derived from the
+/// primaries (the relations of this property need no numeric oracle, so any working config is admissible)
+pub const WORKING_MC: [MC; 12] = [
+    MC::BT709,
+    MC::BT470M,
+    MC::BT470BG,
+    MC::ST170M,
+    MC::ST240M,
+    MC::BT2020NonConstantLuminance,
+    MC::YCgCo,
+    MC::Identity,
+    MC::BT2020ConstantLuminance,
+    MC::ST2085,
+    MC::ChromaticityDerivedConstantLuminance,
+    MC::ICtCp,
+];
+
+pub fn working_cfg() -> BoxedStrategy<YuvConfig> {
+    (pick_from(&WORKING_MC), sup_transfer(), sup_primaries(), prop_oneof![Just(8u8), Just(10u8), Just(16u8), 9u8..=16], any::<bool>(), pick_from(&SUBSAMPLINGS))
+        .prop_map(|(m, t, mut p, d, full, ss)| {
+            if !STD_MC.contains(&m) && p == CP::ST428 {
+                p = CP::BT709; // a matrix cannot be derived from the XYZ encoding
+            }
+            crate::api::cfg(m, t, p, d, full, ss)
+        })
+        .boxed()
+}
+
 pub fn strategy() -> BoxedStrategy<Case> {
     (
-        supported_cfg(),
+        working_cfg(),
         prop_oneof![Just(Kind::Yuv8), Just(Kind::Yuv16), Just(Kind::Rgb), Just(Kind::Lin), Just(Kind::Xyb), Just(Kind::Hsl)],
-        1usize..=64,
+        prop_oneof![12 => 1usize..=64, 1 => 1025usize..=2200, 1 => 2049usize..=4200],
         1usize..=64,
         any::<u64>(),
         pad3(),
         pad3(),
     )
-        .prop_map(|(mut cfg, src, w, h, seed, pads, pads2)| {
+        .prop_map(|(mut cfg, src, w, mut h, seed, pads, pads2)| {
             if src == Kind::Yuv8 {
                 cfg.bit_depth = 8;
+            }
+            if w > 64 {
+                h = 1 + h % 2; // wide images are kept thin
             }
             // sizes 1..=64, multiples of the subsampling factor
             let bw = (w >> cfg.subsampling_x).max(1);
@@ -72,7 +104,21 @@ fn rand_planes(c: &Case) -> [Vec<u16>; 3] {
     let (cw, ch) = (w >> c.cfg.subsampling_x, h >> c.cfg.subsampling_y);
     let max = if c.src == Kind::Yuv8 { 255u64 } else { (1u64 << c.cfg.bit_depth) - 1 };
     let mut e = Expand(c.seed);
-    let mut mk = |n: usize| (0..n).map(|_| e.below(max + 1) as u16).collect::<Vec<u16>>();
+    let runs = c.seed % 3 == 0;
+    let mut mk = |n: usize| {
+        let mut v: Vec<u16> = Vec::with_capacity(n);
+        while v.len() < n {
+            let x = e.below(max + 1) as u16;
+            // related neighbours: runs of equal samples, or +-1 / +-2^k steps
+            let reps = if runs { 1 + e.below(4) } else { 1 };
+            for r in 0..reps {
+                if v.len() < n {
+                    v.push(if r > 0 && e.below(3) == 0 { (x as u64 ^ (1u64 << e.below(c.cfg.bit_depth.min(if c.src == Kind::Yuv8 { 8 } else { 16 }) as u64))).min(max) as u16 } else { x });
+                }
+            }
+        }
+        v
+    };
     [mk(w * h), mk(cw * ch), mk(cw * ch)]
 }
 
@@ -80,7 +126,7 @@ fn rand_floats(c: &Case) -> Vec<[f32; 3]> {
     let (w, h) = c.dims();
     let mut e = Expand(c.seed);
     let wide = e.below(4) == 0;
-    (0..w * h)
+    let mut px: Vec<[f32; 3]> = (0..w * h)
         .map(|_| {
             let mut p = [0f32; 3];
             for x in p.iter_mut() {
@@ -91,7 +137,21 @@ fn rand_floats(c: &Case) -> Vec<[f32; 3]> {
             }
             p
         })
-        .collect()
+        .collect();
+    if c.seed % 3 == 0 {
+        // related neighbours: equal / partly equal / rotated pixels, and pixels equal to the *result* of
+        // converting the previous pixel with one of the float->float edges of this source type
+        let fedges: Vec<Edge> = edges_from(c.src).into_iter().filter(|e| !matches!(e, Edge::RgbToYuv { .. } | Edge::LinToYuv { .. } | Edge::XybToYuv { .. })).collect();
+        let fe = fedges[(c.seed / 3) as usize % fedges.len()];
+        let (kind, cfg) = (c.src, c.cfg);
+        let fb = move |p: [f32; 3]| -> Option<[f32; 3]> {
+            let one = float_img(kind, vec![p], 1, 1, cfg.transfer_characteristics, cfg.color_primaries);
+            apply(fe, &one, &Params { cfg }).ok().and_then(|o| o.float_data().map(|d| d[0]))
+        };
+        let dom = |p: [f32; 3]| -> bool { p.iter().all(|x| x.is_finite() && *x >= -0.25 && *x <= 360.0) };
+        correlate_px(&mut px, c.seed, Some(&fb), &dom);
+    }
+    px
 }
 
 fn build_yuv<T: Pixel>(c: &Case, planes: &[Vec<u16>; 3], pads: [(usize, usize); 3], fill: u16) -> Frame<T> {
@@ -134,12 +194,63 @@ fn single_pixel(c: &Case, src: &Img, x: usize, y: usize) -> Img {
     }
 }
 
+/// configs differing from `c` in exactly one field: another matrix; same matrix, other primaries
+fn decoy_cfgs(c: &YuvConfig) -> Vec<YuvConfig> {
+    let mut a = *c;
+    a.matrix_coefficients = if c.matrix_coefficients == MC::BT709 { MC::ST170M } else { MC::BT709 };
+    let mut b = *c;
+    b.color_primaries = if c.color_primaries == CP::BT709 { CP::BT2020 } else { CP::BT709 };
+    vec![a, b]
+}
+
+/// the same data as `src`, held by an object that was produced by a conversion from a bland (grey /
+/// zero) image and then overwritten through `data_mut()`
+fn provenance_src(c: &Case, src: &Img) -> Img {
+    let (w, h) = c.dims();
+    let n = w * h;
+    let (t, p) = (c.cfg.transfer_characteristics, c.cfg.color_primaries);
+    let data = src.float_data().expect("float source").to_vec();
+    let grey = vec![[0.5f32, 0.5, 0.5]; n];
+    let which = c.seed % 3;
+    match src.kind() {
+        Kind::Rgb => {
+            let mut r = if which == 0 {
+                Rgb::new(grey, w, h, t, p).unwrap()
+            } else {
+                Rgb::try_from((LinearRgb::new(grey, w, h).unwrap(), t, p)).unwrap()
+            };
+            r.data_mut().copy_from_slice(&data);
+            Img::Rgb(r)
+        }
+        Kind::Lin => {
+            let mut l = match which {
+                0 => LinearRgb::from(Hsl::new(vec![[0.0f32, 0.0, 0.5]; n], w, h).unwrap()),
+                1 => LinearRgb::from(Xyb::new(vec![[0.0f32; 3]; n], w, h).unwrap()),
+                _ => LinearRgb::try_from(Rgb::new(grey, w, h, t, p).unwrap()).unwrap(),
+            };
+            l.data_mut().copy_from_slice(&data);
+            Img::Lin(l)
+        }
+        Kind::Xyb => {
+            let mut x = Xyb::from(LinearRgb::new(grey, w, h).unwrap());
+            x.data_mut().copy_from_slice(&data);
+            Img::Xyb(x)
+        }
+        Kind::Hsl => {
+            let mut x = Hsl::from(LinearRgb::new(grey, w, h).unwrap());
+            x.data_mut().copy_from_slice(&data);
+            Img::Hsl(x)
+        }
+        _ => unreachable!(),
+    }
+}
+
 fn positions(w: usize, h: usize, seed: u64) -> Vec<(usize, usize)> {
     if w * h <= 256 {
         return (0..h).flat_map(|y| (0..w).map(move |x| (x, y))).collect();
     }
     let mut e = Expand(seed ^ 0x55);
-    let mut v = vec![(0, 0), (w - 1, 0), (0, h - 1), (w - 1, h - 1), (w / 2, h / 2), (1.min(w - 1), 0), (0, 1.min(h - 1))];
+    let mut v = vec![(0, 0), (w - 1, 0), (0, h - 1), (w - 1, h - 1), (w / 2, h / 2), (1.min(w - 1), 0), (0, 1.min(h - 1)), (1024.min(w - 1), 0), (1025.min(w - 1), h - 1), (2048.min(w - 1), 0), (2049.min(w - 1), h - 1)];
     for _ in 0..120 {
         v.push((e.below(w as u64) as usize, e.below(h as u64) as usize));
     }
@@ -190,7 +301,15 @@ fn check_inner(c: &Case) -> Result<Stats, (String, String)> {
     let is_yuv = matches!(c.src, Kind::Yuv8 | Kind::Yuv16);
     let src_alt = if is_yuv { Some(mk_src(c, c.pads2, 0xABCD)) } else { None };
     let params = Params { cfg: c.cfg };
-    for e in edges_from(c.src) {
+    // R7 (history independence): an image is its data. A source obtained through another conversion
+    // (from a bland image) and then overwritten through data_mut() must convert exactly like a
+    // fresh object holding the same data.
+    let prov = if is_yuv { None } else { Some(provenance_src(c, &src)) };
+    // R8 (no hidden state between calls): decoy configurations differing in one field
+    let decoys = decoy_cfgs(&c.cfg);
+    let all_edges = edges_from(c.src);
+    let fresh_edge = all_edges[(c.seed >> 8) as usize % all_edges.len()];
+    for e in all_edges {
         let en = edge_name(e);
         let out = apply(e, &src, &params).map_err(|err| (format!("error:{en}"), format!("{en} failed on a supported config: {err:?}")))?;
         // R5 borrowed / cloned sources are left unmodified
@@ -205,6 +324,51 @@ fn check_inner(c: &Case) -> Result<Stats, (String, String)> {
         let again = apply(e, &src, &params).map_err(|err| (format!("error:{en}"), format!("{err:?}")))?;
         if !out.same_bits(&again) {
             return Err((format!("nondeterministic:{en}"), format!("{en}: a second run differs")));
+        }
+        if let Some(pv) = &prov {
+            let o3 = apply(e, pv, &params).map_err(|err| (format!("error:{en}"), format!("{err:?}")))?;
+            if !out.same_bits(&o3) {
+                return Err((
+                    format!("history-dependent:{en}"),
+                    format!("{en}: an image produced by an earlier conversion and then overwritten through data_mut() converts differently from a fresh image with the same data"),
+                ));
+            }
+            st.class("provenance_pairs_compared", 1);
+        }
+        // R8: run the same conversion with decoy configs in between, then again, and in a fresh thread
+        if w * h <= 1024 {
+            for dc in &decoys {
+                let dsrc = if is_yuv {
+                    let mut c2 = c.clone();
+                    c2.cfg = *dc;
+                    if c2.src == Kind::Yuv8 {
+                        c2.cfg.bit_depth = 8;
+                    }
+                    mk_src(&c2, c.pads, 7)
+                } else {
+                    src.clone()
+                };
+                let _ = apply(e, &dsrc, &Params { cfg: *dc });
+            }
+            let after = apply(e, &src, &params).map_err(|err| (format!("error:{en}"), format!("{err:?}")))?;
+            if !out.same_bits(&after) {
+                return Err((
+                    format!("call-order-dependent:{en}"),
+                    format!("{en}: the same conversion gives a different result after conversions with other configs ({:?}) ran on this thread", decoys.iter().map(cfg_json).collect::<Vec<_>>()),
+                ));
+            }
+            if e == fresh_edge {
+                let (s2, p2) = (src.clone(), Params { cfg: c.cfg });
+                let fresh = std::thread::spawn(move || apply(e, &s2, &p2)).join().map_err(|_| (format!("panic:{en}"), "panic in a fresh thread".to_string()))?;
+                match fresh {
+                    Ok(f) if out.same_bits(&f) => {}
+                    _ => {
+                        return Err((format!("thread-state-dependent:{en}"), format!("{en}: the result differs from the same conversion run on a fresh thread")));
+                    }
+                }
+                st.class("fresh_thread_comparisons", 1);
+            }
+            st.class("call_order_checks", 1);
         }
         // R4 layout independence (YUV sources rebuilt with other padding and padding contents)
         if let Some(alt) = &src_alt {
@@ -299,4 +463,4 @@ pub fn replay(v: &Value) -> Result<(), String> {
     check(&Case::from_json(v).ok_or("bad case")?, &mut Stats::new()).map_err(|v| v.message)
 }
 
-pub const RULE: &str = "cases = (source type in {Yuv<u8>, Yuv<u16>, Rgb, LinearRgb, Xyb, Hsl}, supported config with one of 6 subsamplings, size 1..=64 x 1..=64 rounded to a multiple of the subsampling, random content, two independent padding layouts 0..=32 with different padding contents) generated by proptest; every conversion edge leaving the source type is run (18 From/TryFrom impls in total, by reference and by value, u8 and u16 outputs). Metamorphic relations: R1 dimensions preserved; R2 output pixel i is bit-identical to the conversion of the 1x1 image made of input pixel i (YUV sources: Y(x,y) with the chroma sample at (x>>ss_x, y>>ss_y)), on all pixels of images up to 256 pixels and 127 positions (corners + random) of larger ones; R3 encode to subsampled YUV: luma equals the 4:4:4 luma plane, each chroma sample equals the 4:4:4 chroma of a pixel of its own block, plane sizes (w>>ss_x, h>>ss_y); R4 YUV sources rebuilt with another padding/stride and other padding contents give bit-identical output; R5 sources compare equal to a clone taken before; R6 a second run is bit-identical. non-trivial = image with w>1 and h>1; distinct = by hash of the case";
+pub const RULE: &str = "cases = (source type in {Yuv<u8>, Yuv<u16>, Rgb, LinearRgb, Xyb, Hsl}, any working config (7 standard + 5 primaries-derived matrices) with one of 6 subsamplings, size 1..=64 x 1..=64 (one case in seven: a thin image 1025..4200 pixels wide) rounded to a multiple of the subsampling, random content (a third of the images with related neighbours: runs, partly equal pixels, pixels equal to the converted previous pixel), two independent padding layouts 0..=32 with different padding contents) generated by proptest; every conversion edge leaving the source type is run (18 From/TryFrom impls in total, by reference and by value, u8 and u16 outputs). Metamorphic relations: R1 dimensions preserved; R2 output pixel i is bit-identical to the conversion of the 1x1 image made of input pixel i (YUV sources: Y(x,y) with the chroma sample at (x>>ss_x, y>>ss_y)), on all pixels of images up to 256 pixels and 127 positions (corners + random) of larger ones; R3 encode to subsampled YUV: luma equals the 4:4:4 luma plane, each chroma sample equals the 4:4:4 chroma of a pixel of its own block, plane sizes (w>>ss_x, h>>ss_y); R4 YUV sources rebuilt with another padding/stride and other padding contents give bit-identical output; R5 sources compare equal to a clone taken before; R6 a second run is bit-identical; R7 a float source obtained through an earlier conversion from a bland image and overwritten through data_mut() converts exactly like a fresh image with the same data; R8 the result is unchanged after conversions with decoy configs (one field changed) ran on the same thread, and equals the result computed on a fresh thread. non-trivial = image with w>1 and h>1; distinct = by hash of the case";
